@@ -618,7 +618,7 @@ impl Check for C19 {
         }
     }
     fn rule(&self) -> String {
-        "each evaluation = one generated world and batch (as C06) with file output: newline-delimited JSON, or CSV with a generated mapping (paths, sums, optionals, mixed-case names, free-text cells with commas / line breaks; sorted or not); flush rate none/1/3/1000; file pre-existing or not; a single file or a combined policy of two files; 1-3 run() calls appending to the same file(s), each possibly naming its own sinks; both persistence policies; families: schedule only / legal faults (short writes, EINTR) / hard faults (EIO or ENOSPC at one write, one-shot or sticky, or a failing open; relaxed oracle) / cli and cli-hard (command_line_runner: configuration file + newline-delimited query file read in chunks of 1..1000 rows - LF or CRLF, with or without final newline, with rows that are no query - under short reads, EINTR and one failing read; one run() per chunk). Preemption before and after every write. The CSV file is read without prescribing cell escaping. non-trivial = more than one record expected; distinct = distinct (batch, schedule-hash, fault count) Round 6: family rotation = 2-3 run() calls with the response file rotated away (renamed), rewritten in place (same content, another file under the name) or deleted in between - descriptors follow the file on the simulated disk; nothing may be written to a file after it lost the name, a new file starts with the CSV header again, and the records of all runs (what each file held when it lost the name, then the file of that name) are judged as one whole.".into()
+        "each evaluation = one generated world and batch (as C06) with file output: newline-delimited JSON, or CSV with a generated mapping (paths, sums, optionals, mixed-case names, free-text cells with commas / line breaks; sorted or not); flush rate none/1/3/1000; file pre-existing or not; a single file or a combined policy of two files; 1-3 run() calls appending to the same file(s), each possibly naming its own sinks; both persistence policies; families: schedule only / legal faults (short writes, EINTR) / hard faults (EIO or ENOSPC at one write, one-shot or sticky, or a failing open; relaxed oracle) / cli and cli-hard (command_line_runner: configuration file + newline-delimited query file read in chunks of 1..1000 rows - LF or CRLF, with or without final newline, with rows that are no query - under short reads, EINTR and one failing read; one run() per chunk). Preemption before and after every write. The CSV file is read without prescribing cell escaping. non-trivial = more than one record expected; distinct = distinct (batch, schedule-hash, fault count) Round 6: family rotation = 2-3 run() calls with the response file rotated away (renamed), rewritten in place (same content, another file under the name) or deleted in between - descriptors follow the file on the simulated disk; nothing may be written to a file after it lost the name, a new file starts with the CSV header again, and the records of all runs (what each file held when it lost the name, then the file of that name) are judged as one whole. Rounds 8-9: the two files of a combined policy carry generated names (the second may sort before the first; one stem for two formats); with two files and two batches two caller threads may each write a file of their own at the same time; a JSON record is compared with the returned response including what a CSV sink configured before it recorded in the response; queries submitted again; per-run parallelism; the binding interface.".into()
     }
     fn assumptions(&self) -> Vec<String> {
         vec![
